@@ -139,10 +139,13 @@ structure CSt where
 def cstep (s : CSt) (e : CEv) : CSt :=
   if !s.reading then s else
   let s1 : CSt := match e with
-    | .data tag => if tag.dropLast ∈ s.checklist ∨ tag ∈ s.checklist then s else { s with checklist := tag :: s.checklist }
+    | .data tag =>
+        if Gen.loopChecklistAdds (decide (tag.dropLast ∈ s.checklist)) then
+          (if tag ∈ s.checklist then s else { s with checklist := tag :: s.checklist })     -- `set.add`
+        else s
     | .iterTerm tag => { s with checklist := s.checklist.filter (· ≠ tag) }
-    | .term st => { s with checklist := if st ≠ .completed then [] else s.checklist, terminated := true }
-  { s1 with reading := !(s1.terminated && s1.checklist.isEmpty) }
+    | .term st => { s with checklist := if Gen.loopChecklistClears st then [] else s.checklist, terminated := true }
+  { s1 with reading := Gen.loopKeepsReading s1.terminated s1.checklist.length }
 
 end SFV.Loop
 
